@@ -68,7 +68,8 @@ const (
 	compGW   = 16
 	compLBS  = 17
 	compPCR  = 18
-	compLast = compPCR
+	compRR   = 19
+	compLast = compRR
 	opMark   = 99
 	opRun    = 90
 )
@@ -149,14 +150,14 @@ var compNames = map[int64]string{
 	compAM: "twcc-arrivalmap", compLRU: "cc-feedback-lru", compSL: "rfc8888-streamlog", compSR: "stats-recorder",
 	compSI: "stats-interceptor", compJB: "jitterbuffer-interceptor", compFF: "flexfec-encoder", compRC: "gcc-ratecalc",
 	compLB: "gcc-leakybucket", compPC: "pacing", compHIST: "rtpfb-history", compGW: "cc-gcc-writers",
-	compLBS: "gcc-leakybucket-streams", compPCR: "pacing-rate",
+	compLBS: "gcc-leakybucket-streams", compPCR: "pacing-rate", compRR: "report-receiver-interceptor",
 }
 
 var setNames = map[int64]string{
 	compRL: "c12rl", compRS: "c12rs", compRB: "c12rb", compNG: "c12ng", compAM: "c12am", compLRU: "c12lru",
 	compSL: "c12sl", compSR: "c12sr", compSI: "c12si", compJB: "c12jb", compFF: "c12ff", compRC: "c12rc",
 	compLB: "c12lb", compPC: "c12pc", compHIST: "c12hist", compGW: "c12gw",
-	compLBS: "c12lbs", compPCR: "c12pr",
+	compLBS: "c12lbs", compPCR: "c12pr", compRR: "c12rr",
 }
 
 var (
@@ -515,6 +516,15 @@ func generate(o *cq.Opts, r *rand.Rand, add func(c12Case, ...string)) {
 		}
 		for _, variant := range pcrVariants {
 			add(pcrCase(r, variant), "mode1")
+		}
+		// round 5: the leaky bucket at target bitrates where one 5 ms tick alone has no budget (below
+		// 1600 bit/s) and around that threshold, with arrivals slower than the pacer drains; the
+		// receiver-report interceptor with sender reports of SSRCs that are not (or no longer) bound
+		for i, variant := range lbtVariants {
+			add(lbtCase(r, int64((i+k)%2), variant), fmt.Sprintf("via%d", (i+k)%2), "mode1", "lowrate")
+		}
+		for _, variant := range rrVariants {
+			add(rrCase(r, variant), "senderreports")
 		}
 		for _, mx := range []int64{0, 1, 65535} {
 			for _, kind := range []string{"loss", "mixed", "burst"} {
